@@ -426,14 +426,14 @@ func reader(rn *runner, r *hx.Rng) {
 
 func main() {
 	out := hx.Flags("C35", 400)
-	out.Rule = "cases 0-2: witnesses of findings 0 (slice held across a delete), 1 (reconnect forgets the data center), 2 (volume-id string wraps); then random histories of 5..30 operations over volumes {1,2,3} x urls {u1..u4} x data centers {dc1,dc2,(empty)}: direct mode = addLocation/deleteLocation calls (45% adds, 25% deletes biased to present urls) mixed with readers (LookupVolumeServerUrl/LookupFileId/GetVidLocations with 1 in 6 malformed or out-of-range id strings, GetLocations slices that are kept, re-reads of kept slices); every 8th case stream mode = VolumeLocation messages (0-3 new and 0-2 deleted vids, 1 in 10 with a leader hint) over a real gRPC KeepConnected stream, 1 in 8 steps a disconnect; after every update GetLocations of volumes 1,2,3 (content and capacity) and DataCenter are recorded; non-trivial = some volume had a location; distinct = canonical op list"
+	out.Rule = "cases 0-2: regression cases = the former witnesses of the three repaired defects (slice held across a delete, data center after a reconnect, volume-id string outside uint32); then random histories of 5..30 operations over volumes {1,2,3} x urls {u1..u4} x data centers {dc1,dc2,(empty)}: direct mode = addLocation/deleteLocation calls (45% adds, 25% deletes biased to present urls) mixed with readers (LookupVolumeServerUrl/LookupFileId/GetVidLocations with 1 in 6 malformed or out-of-range id strings, GetLocations slices that are kept, re-reads of kept slices); every 8th case stream mode = VolumeLocation messages (0-3 new and 0-2 deleted vids, 1 in 10 with a leader hint) over a real gRPC KeepConnected stream, 1 in 8 steps a disconnect; after every update GetLocations of volumes 1,2,3 (content and capacity) and DataCenter are recorded; non-trivial = some volume had a location; distinct = canonical op list"
 	root := hx.NewRng(out.Seed)
 	A, B, C := mkLoc(0, 1), mkLoc(1, 2), mkLoc(2, 1)
 	for i := 0; i < out.N; i++ {
 		r := root.Fork()
 		switch {
 		case i == 0:
-			// finding 0: the held slice shows u3 twice and loses u1
+			// repaired (fix-c35-delete-copies): the held slice used to show u3 twice and lose u1
 			rn := newRunner(out, "dc1", false)
 			rn.ev(true, 1, A)
 			rn.ev(true, 1, B)
@@ -443,7 +443,7 @@ func main() {
 			rn.reread(0)
 			rn.emit("dc1", "witness-alias")
 		case i == 1:
-			// finding 1: after a lost connection the client's data center is forgotten
+			// repaired (fix-c35-reconnect-dc): after a lost connection the client's data center used to be forgotten
 			rn := newRunner(out, "dc1", true)
 			rn.msg(false, B, []uint32{1}, nil)
 			rn.lookupUrl("1")
@@ -453,7 +453,7 @@ func main() {
 			rn.lookupUrl("1")
 			rn.emit("dc1", "witness-reconnect")
 		case i == 2:
-			// finding 2: "4294967297" is answered with volume 1
+			// repaired (fix-c35-vid-parse): "4294967297" used to be answered with volume 1
 			rn := newRunner(out, "dc1", false)
 			rn.ev(true, 1, A)
 			rn.lookupUrl("4294967297")
